@@ -189,6 +189,24 @@ class VSpec:
             self.to_z0()
             self.z0 = vals(0)
             return OK
+        if op == 'set_z0_vector_own':
+            g = I(0)
+            if not self._in(g, self.freqs):
+                raise IndexError
+            src = list(self.fz0[g] if self.perF else self.z0)
+            self.to_z0()
+            self.z0 = src
+            return OK
+        if op == 'set_fz0_vector_own':
+            f, g = I(0), I(1)
+            if g < -1 or g >= self.freqs or (g == -1 and self.perF):
+                raise IndexError
+            src = list(self.z0 if (g == -1 or not self.perF) else self.fz0[g])
+            if not self._in(f, self.freqs):
+                return FAIL
+            self.to_fz0()
+            self.fz0[f] = src
+            return OK
         if op == 'has_fz0':
             return OK + ' %d' % int(self.perF)
         if op == 'get_fz0':
